@@ -906,3 +906,289 @@ Section Invariants.
     - intros k st Hk. lia.
   Qed.
 End Invariants.
+
+(* ---- the final LALR loop ------------------------------------------------------------------ *)
+Section LalrLoop.
+  Variable ps : list prod.
+  Variable e : N.
+  Variable stop : N.
+  Variable fs : fsets.
+  Variable cfuel : nat.
+
+  Notation closure := (Closure.closure ps e true fs cfuel).
+  Notation closed0 := (closed0 ps e).
+  Notation sinv := (sinv ps e stop).
+
+  (* the closure of an LR(0)-closed item list adds no item *)
+  Lemma add_prod_pds_found fol its w q :
+    In (q, O) (pds its) -> pds (fst (add_prod true fol (its, w) q)) = pds its.
+  Proof.
+    intros Hin. unfold add_prod. destruct (find_item q 0 its 0) as [j|] eqn:Ef.
+    - destruct (nsubset fol (follow_at its j)); [reflexivity|]. cbn [fst]. apply pds_set_follow.
+    - exfalso. apply pds_In in Hin. destruct Hin as (it & Hit & Hpd).
+      exact (find_item_none q 0 its 0 Ef it Hit Hpd).
+  Qed.
+
+  Lemma add_prods_pds_found fol qs : forall its w,
+    (forall q, In q qs -> In (q, O) (pds its)) ->
+    pds (fst (fold_left (add_prod true fol) qs (its, w))) = pds its.
+  Proof.
+    induction qs as [|q r IH]; intros its w H; cbn [fold_left]; [reflexivity|].
+    pose proof (add_prod_pds_found fol its w q (H q (or_introl eq_refl))) as H1.
+    destruct (add_prod true fol (its, w) q) as [its1 w1]. cbn [fst] in H1.
+    rewrite IH; [exact H1|]. intros q' Hq'. rewrite H1. apply H. right. exact Hq'.
+  Qed.
+
+  Lemma closure_loop_pds fuel : forall its w its',
+    closure_loop ps e true fs fuel its w = Some its' -> closed0 (pds its) -> pds its' = pds its.
+  Proof.
+    induction fuel as [|f IH]; intros its w its' H Hc; [discriminate|].
+    cbn [closure_loop] in H. destruct w as [|i w']; [inversion H; reflexivity|].
+    destruct (nth_error its i) as [it|] eqn:Hi; [|eapply IH; eassumption].
+    destruct (item_sym ps e it) as [[a|b]|] eqn:Hs; try (eapply IH; eassumption).
+    assert (Hq : forall q, In q (prods_of ps b) -> In (q, O) (pds its)).
+    { intros q Hq. apply (Hc (it_p it) (it_d it) b); [|exact Hs|exact Hq].
+      apply pds_In. exists it. split; [eapply nth_error_In; exact Hi|reflexivity]. }
+    pose proof (add_prods_pds_found (new_item_follow ps e fs it) (prods_of ps b) its w' Hq) as Hp.
+    rewrite <- Hp. eapply IH; [exact H|]. rewrite Hp. exact Hc.
+  Qed.
+
+  Lemma closure_pds its its' : closure its = Some its' -> closed0 (pds its) -> pds its' = pds its.
+  Proof. unfold Closure.closure. apply closure_loop_pds. Qed.
+
+  (* same states up to the follow sets of their items *)
+  Definition same_pds (all all' : list mstate) : Prop :=
+    length all' = length all /\
+    forall k s, nth_error all k = Some s ->
+      exists s', nth_error all' k = Some s' /\ ms_sym s' = ms_sym s /\
+                 pds (ms_items s') = pds (ms_items s) /\
+                 ms_acts s' = ms_acts s /\ ms_gotos s' = ms_gotos s.
+
+  Lemma same_pds_refl all : same_pds all all.
+  Proof. split; [reflexivity|]. intros k s H. exists s. auto. Qed.
+
+  Lemma same_pds_trans a b c : same_pds a b -> same_pds b c -> same_pds a c.
+  Proof.
+    intros [L1 H1] [L2 H2]. split; [congruence|]. intros k s Hk.
+    destruct (H1 k s Hk) as (s1 & Hk1 & A1 & A2 & A3 & A4).
+    destruct (H2 k s1 Hk1) as (s2 & Hk2 & B1 & B2 & B3 & B4).
+    exists s2. repeat split; congruence.
+  Qed.
+
+  Lemma same_pds_set_items all k st its :
+    nth_error all k = Some st -> pds its = pds (ms_items st) -> same_pds all (set_items k its all).
+  Proof.
+    intros Hk Hp. split; [unfold set_items; apply map_nth_length|]. intros j s Hj.
+    rewrite nth_error_set_items. destruct (Nat.eqb_spec j k) as [->|Hne].
+    - rewrite Hk in Hj. inversion Hj; subst s. rewrite Hk. cbn [option_map]. eexists.
+      split; [reflexivity|]. cbn. auto.
+    - exists s. auto.
+  Qed.
+
+  Lemma sinv_same_pds all all' : same_pds all all' -> sinv (length all) all -> sinv (length all') all'.
+  Proof.
+    intros [Hlen Hs] [H0 Hwf Hdone].
+    assert (Hback : forall k s', nth_error all' k = Some s' ->
+              exists s, nth_error all k = Some s /\ ms_sym s' = ms_sym s /\
+                        pds (ms_items s') = pds (ms_items s) /\
+                        ms_acts s' = ms_acts s /\ ms_gotos s' = ms_gotos s).
+    { intros k s' Hk. destruct (nth_error all k) as [s|] eqn:E.
+      - destruct (Hs k s E) as (s2 & Hk2 & A). rewrite Hk in Hk2. inversion Hk2; subst s2. exists s. auto.
+      - apply nth_error_None in E. assert (k < length all')%nat by (apply nth_error_Some; congruence). lia. }
+    assert (Hstep : step_rel (length all) all all').
+    { intros k s Hk. destruct (Hs k s Hk) as (s' & Hk' & A1 & A2 & A3 & A4). exists s'.
+      split; [exact Hk'|]. split; [exact A1|]. split; [rewrite A2; apply incl_refl|auto]. }
+    constructor.
+    - destruct H0 as (st0 & Hs0 & Hin0). destruct (Hs 0%nat st0 Hs0) as (s' & Hk' & _ & A2 & _).
+      exists s'. split; [exact Hk'|rewrite A2; exact Hin0].
+    - intros k s' Hk. destruct (Hback k s' Hk) as (s & Hk0 & _ & A2 & A3 & _).
+      destruct (Hwf k s Hk0) as [W1 W2]. split; [rewrite A2; exact W1|rewrite A3; exact W2].
+    - intros k s' Hlt Hk. destruct (Hback k s' Hk) as (s & Hk0 & _).
+      assert (Hne : k <> length all).
+      { assert (k < length all)%nat by (apply nth_error_Some; congruence). lia. }
+      eapply (state_done_step ps e stop (length all) all all' k s s' Hstep Hne Hk0 Hk).
+      apply (Hdone k s); [|exact Hk0]. apply nth_error_Some. congruence.
+  Qed.
+
+  (* ---- closing every state ---------------------------------------------------------------- *)
+  Definition all_closed (all : list mstate) (k n : nat) : Prop :=
+    forall j s, (k <= j < k + n)%nat -> nth_error all j = Some s -> closed ps e true fs (ms_items s).
+
+  Lemma close_all_spec n : forall k all all',
+    close_all ps e true fs cfuel k n all = Some all' ->
+    (forall j s, nth_error all j = Some s -> closed0 (pds (ms_items s))) ->
+    same_pds all all' /\
+    (forall j s', (k <= j < k + n)%nat -> nth_error all' j = Some s' -> closed ps e true fs (ms_items s')) /\
+    (forall j, (j < k)%nat -> nth_error all' j = nth_error all j).
+  Proof.
+    induction n as [|n IH]; intros k all all' H Hc; cbn [close_all] in H.
+    - inversion H; subst. split; [apply same_pds_refl|]. split; [intros j s Hj; lia|auto].
+    - destruct (nth_error all k) as [st|] eqn:Hk.
+      + destruct (closure (ms_items st)) as [its|] eqn:Hcl; [|discriminate].
+        pose proof (closure_pds _ _ Hcl (Hc k st Hk)) as Hp.
+        pose proof (same_pds_set_items all k st its Hk Hp) as Hsame.
+        destruct (IH (S k) (set_items k its all) all' H) as (Hs2 & Hc2 & Hu2).
+        { intros j s Hj. rewrite nth_error_set_items in Hj. destruct (Nat.eqb_spec j k) as [->|Hne].
+          - rewrite Hk in Hj. inversion Hj; subst s. cbn [ms_items]. rewrite Hp. apply (Hc k st Hk).
+          - apply (Hc j s Hj). }
+        split; [eapply same_pds_trans; eassumption|]. split.
+        * intros j s' Hj Hs'. destruct (Nat.eq_dec j k) as [->|Hne].
+          -- rewrite (Hu2 k (Nat.lt_succ_diag_r k)), nth_error_set_items, Nat.eqb_refl, Hk in Hs'.
+             inversion Hs'; subst s'. cbn [ms_items].
+             exact (proj1 (proj2 (closure_spec ps e true fs cfuel _ _ Hcl))).
+          -- apply (Hc2 j s'); [lia|exact Hs'].
+        * intros j Hj. rewrite (Hu2 j (Nat.lt_lt_succ_r _ _ Hj)), nth_error_set_items.
+          destruct (Nat.eqb_spec j k); [lia|reflexivity].
+      + inversion H; subst all'. split; [apply same_pds_refl|]. split; [|auto].
+        intros j s' Hj Hs'. apply nth_error_None in Hk.
+        assert (j < length all)%nat by (apply nth_error_Some; congruence). lia.
+  Qed.
+
+  (* ---- propagation ---------------------------------------------------------------------------- *)
+  Notation item_inc := (item_inc ps e).
+
+  (* target tgt has received the follow sets of the advanced items [incs] *)
+  Definition received (incs : list (option item)) (all : list mstate) (tgt : nat) (js : list nat) : Prop :=
+    exists ts, nth_error all tgt = Some ts /\
+      forall j, In j js -> exists next this,
+        nth_error (ms_items ts) j = Some next /\ find_inc incs next = Some this /\
+        fsub (it_f this) (it_f next).
+
+  Lemma prop_items_spec incs tgt js : forall all u all' u',
+    prop_items incs tgt js (all, u) = BOk (all', u') ->
+    same_pds all all' /\ (u = true -> u' = true) /\
+    (u' = false -> all' = all /\ (js <> [] -> received incs all tgt js)).
+  Proof.
+    induction js as [|j r IH]; intros all u all' u' H; cbn [prop_items] in H.
+    - inversion H; subst. split; [apply same_pds_refl|]. split; [auto|]. intros _. split; [reflexivity|congruence].
+    - destruct (nth_error all tgt) as [ts|] eqn:Ht; [|discriminate].
+      destruct (nth_error (ms_items ts) j) as [next|] eqn:Hn; [|discriminate].
+      destruct (find_inc incs next) as [this|] eqn:Hf; [|discriminate].
+      destruct (nsubset (it_f this) (it_f next)) eqn:Es.
+      + destruct (IH _ _ _ _ H) as (Hs & Hu & Hno). split; [exact Hs|]. split; [exact Hu|].
+        intros Hu'. destruct (Hno Hu') as [-> Hrec]. split; [reflexivity|]. intros _.
+        exists ts. split; [exact Ht|]. intros j' [<-|Hj'].
+        * exists next, this. split; [exact Hn|]. split; [exact Hf|]. exact (proj1 (nsubset_spec _ _) Es).
+        * destruct r as [|j2 r2]; [destruct Hj'|].
+          destruct (Hrec ltac:(discriminate)) as (ts' & Ht' & Hall). rewrite Ht in Ht'. inversion Ht'; subst ts'.
+          apply Hall. exact Hj'.
+      + destruct (IH _ _ _ _ H) as (Hs & Hu & Hno).
+        assert (Hs1 : same_pds all (set_items tgt (set_follow j (nunion (it_f next) (it_f this)) (ms_items ts)) all)).
+        { apply (same_pds_set_items all tgt ts); [exact Ht|apply pds_set_follow]. }
+        split; [eapply same_pds_trans; eassumption|]. split; [intros _; apply Hu; reflexivity|].
+        intros Hu'. rewrite (Hu eq_refl) in Hu'. discriminate.
+  Qed.
+
+  Definition state_received (all : list mstate) (i : nat) : Prop :=
+    forall src, nth_error all i = Some src ->
+      forall tgt, In tgt (targets src) ->
+        exists ts, nth_error all tgt = Some ts /\
+                   received (map item_inc (ms_items src)) all tgt (kernel_idx ps (ms_items ts)).
+
+  Lemma prop_targets_spec incs tgts : forall all u all' u',
+    fold_left (fun r tgt => bbind r (fun s1 =>
+                 match nth_error (fst s1) tgt with
+                 | None => BCrash 0
+                 | Some ts => prop_items incs tgt (kernel_idx ps (ms_items ts)) s1
+                 end)) tgts (BOk (all, u)) = BOk (all', u') ->
+    same_pds all all' /\ (u = true -> u' = true) /\
+    (u' = false -> all' = all /\
+       forall tgt, In tgt tgts -> exists ts, nth_error all tgt = Some ts /\
+         (kernel_idx ps (ms_items ts) <> [] -> received incs all tgt (kernel_idx ps (ms_items ts)))).
+  Proof.
+    induction tgts as [|tgt r IH]; intros all u all' u' H; cbn [fold_left] in H.
+    - inversion H; subst. split; [apply same_pds_refl|]. split; [auto|]. intros _. split; [reflexivity|intros t []].
+    - cbn [bbind fst] in H. destruct (nth_error all tgt) as [ts|] eqn:Ht.
+      + destruct (prop_items incs tgt (kernel_idx ps (ms_items ts)) (all, u)) as [[all1 u1]| | | |] eqn:Ep.
+        * destruct (prop_items_spec _ _ _ _ _ _ _ Ep) as (Hs1 & Hu1 & Hno1).
+          destruct (IH _ _ _ _ H) as (Hs2 & Hu2 & Hno2).
+          split; [eapply same_pds_trans; eassumption|]. split; [auto|].
+          intros Hu'. destruct (Hno2 Hu') as [-> Hrec2].
+          destruct u1; [specialize (Hu2 eq_refl); congruence|].
+          destruct (Hno1 eq_refl) as [-> Hrec1]. split; [reflexivity|].
+          intros tgt' [<-|Hin]; [exists ts; split; [exact Ht|exact Hrec1]|apply Hrec2; exact Hin].
+        * exfalso. clear -H. induction r as [|x r IHr]; cbn in H; [discriminate|auto].
+        * exfalso. clear -H. induction r as [|x r IHr]; cbn in H; [discriminate|auto].
+        * exfalso. clear -H. induction r as [|x r IHr]; cbn in H; [discriminate|auto].
+        * exfalso. clear -H. induction r as [|x r IHr]; cbn in H; [discriminate|auto].
+      + exfalso. clear -H. induction r as [|x r IHr]; cbn in H; [discriminate|auto].
+  Qed.
+
+  Lemma prop_state_spec all u i all' u' :
+    prop_state ps e (BOk (all, u)) i = BOk (all', u') ->
+    same_pds all all' /\ (u = true -> u' = true) /\
+    (u' = false -> all' = all /\
+       forall src, nth_error all i = Some src ->
+         forall tgt, In tgt (targets src) -> exists ts, nth_error all tgt = Some ts /\
+           (kernel_idx ps (ms_items ts) <> [] ->
+            received (map item_inc (ms_items src)) all tgt (kernel_idx ps (ms_items ts)))).
+  Proof.
+    unfold prop_state. cbn [bbind fst]. destruct (nth_error all i) as [src|] eqn:Hi.
+    - intros H. destruct (prop_targets_spec _ _ _ _ _ _ H) as (Hs & Hu & Hno).
+      split; [exact Hs|]. split; [exact Hu|]. intros Hu'. destruct (Hno Hu') as [-> Hrec].
+      split; [reflexivity|]. intros src' Hsrc'. inversion Hsrc'; subst src'. exact Hrec.
+    - intros H. inversion H; subst. split; [apply same_pds_refl|]. split; [auto|].
+      intros _. split; [reflexivity|]. intros src Hsrc. discriminate.
+  Qed.
+
+  Lemma prop_all_spec idxs : forall all u all' u',
+    fold_left (prop_state ps e) idxs (BOk (all, u)) = BOk (all', u') ->
+    same_pds all all' /\ (u = true -> u' = true) /\
+    (u' = false -> all' = all /\
+       forall i, In i idxs -> forall src, nth_error all i = Some src ->
+         forall tgt, In tgt (targets src) -> exists ts, nth_error all tgt = Some ts /\
+           (kernel_idx ps (ms_items ts) <> [] ->
+            received (map item_inc (ms_items src)) all tgt (kernel_idx ps (ms_items ts)))).
+  Proof.
+    induction idxs as [|i r IH]; intros all u all' u' H; cbn [fold_left] in H.
+    - inversion H; subst. split; [apply same_pds_refl|]. split; [auto|]. intros _.
+      split; [reflexivity|intros i []].
+    - destruct (prop_state ps e (BOk (all, u)) i) as [[all1 u1]| | | |] eqn:Ep;
+        try (exfalso; clear -H; induction r as [|x r IHr]; cbn in H; [discriminate|auto]).
+      destruct (prop_state_spec _ _ _ _ _ Ep) as (Hs1 & Hu1 & Hno1).
+      destruct (IH _ _ _ _ H) as (Hs2 & Hu2 & Hno2).
+      split; [eapply same_pds_trans; eassumption|]. split; [auto|].
+      intros Hu'. destruct (Hno2 Hu') as [-> Hrec2].
+      destruct u1; [specialize (Hu2 eq_refl); congruence|].
+      destruct (Hno1 eq_refl) as [-> Hrec1]. split; [reflexivity|].
+      intros i' [<-|Hin]; [exact Hrec1|apply Hrec2; exact Hin].
+  Qed.
+
+  (* what holds when the loop ends: every state is closed (LR(1)) and every target's kernel
+     items contain the follow sets of the items they come from *)
+  Definition lalr_post (all : list mstate) : Prop :=
+    (forall j s, nth_error all j = Some s -> closed ps e true fs (ms_items s)) /\
+    (forall i src, nth_error all i = Some src ->
+       forall tgt, In tgt (targets src) -> exists ts, nth_error all tgt = Some ts /\
+         (kernel_idx ps (ms_items ts) <> [] ->
+          received (map item_inc (ms_items src)) all tgt (kernel_idx ps (ms_items ts)))).
+
+  Lemma lalr_loop_spec fuel : forall all all',
+    lalr_loop ps e true fs cfuel fuel all = BOk all' ->
+    (forall j s, nth_error all j = Some s -> closed0 (pds (ms_items s))) ->
+    same_pds all all' /\ lalr_post all'.
+  Proof.
+    induction fuel as [|f IH]; intros all all' H Hc; [discriminate|].
+    cbn [lalr_loop] in H.
+    destruct (close_all ps e true fs cfuel 0 (length all) all) as [all1|] eqn:Ec; [|discriminate].
+    destruct (close_all_spec _ _ _ _ Ec Hc) as (Hs1 & Hcl1 & _).
+    apply bbind_ok in H. destruct H as ([all2 u2] & Hp & Hrest). cbn [fst snd] in Hrest.
+    destruct (prop_all_spec _ _ _ _ _ Hp) as (Hs2 & _ & Hno).
+    destruct u2.
+    - assert (Hc2 : forall j s, nth_error all2 j = Some s -> closed0 (pds (ms_items s))).
+      { intros j s Hj. pose proof (same_pds_trans _ _ _ Hs1 Hs2) as [Hl Hs].
+        destruct (nth_error all j) as [s0|] eqn:E.
+        - destruct (Hs j s0 E) as (s' & Hj' & _ & Hp' & _). rewrite Hj in Hj'. inversion Hj'; subst s'.
+          rewrite Hp'. apply (Hc j s0 E).
+        - apply nth_error_None in E. assert (j < length all2)%nat by (apply nth_error_Some; congruence). lia. }
+      destruct (IH _ _ Hrest Hc2) as (Hs3 & Hpost).
+      split; [|exact Hpost]. eapply same_pds_trans; [|exact Hs3]. eapply same_pds_trans; eassumption.
+    - inversion Hrest; subst all'. destruct (Hno eq_refl) as [-> Hrec].
+      split; [exact Hs1|]. split.
+      + intros j s Hj. apply (Hcl1 j s); [|exact Hj].
+        assert (j < length all1)%nat by (apply nth_error_Some; congruence).
+        destruct Hs1 as [Hl _]. lia.
+      + intros i src Hi. apply (Hrec i); [|exact Hi]. apply in_seq.
+        assert (i < length all1)%nat by (apply nth_error_Some; congruence). lia.
+  Qed.
+End LalrLoop.
